@@ -145,12 +145,55 @@ def observe(ctx, st, m, case, step, canon, feats=()):
     return True
 
 
-def run_history(ctx, cssutils, rng, canon, nops=None, ops_in=None):
+OWNERS = ['standalone', 'standalone', 'standalone', 'style-rule', 'media-style', 'page', 'font-face', 'margin', 'parsed-initial', 'parseStyle', 'validate-off', 'log-mode', 'rule-object']
+INITIAL = '/*c*/color: red; /*d*/ top: 1px !important; COLOR: blue /*e*/; x-foo: a b'
+INITIAL_ENTRIES = [['color', 'red', False], ['top', '1px', True], ['color', 'blue', False], ['x-foo', 'a b', False]]
+
+
+def make_block(cssutils, owner):
+    """the declaration block under test, in the place a user would find one; returns (block, initial model entries, keep-alive)"""
     css = cssutils.css
+    if owner == 'style-rule':
+        sh = cssutils.parseString('a{}')
+        return sh.cssRules[0].style, [], sh
+    if owner == 'media-style':
+        sh = cssutils.parseString('@media print{a{}}')
+        return sh.cssRules[0].cssRules[0].style, [], sh
+    if owner == 'page':
+        sh = cssutils.parseString('@page :first{}')
+        return sh.cssRules[0].style, [], sh
+    if owner == 'font-face':
+        sh = cssutils.parseString('@font-face{}')
+        return sh.cssRules[0].style, [], sh
+    if owner == 'margin':
+        sh = cssutils.parseString('@page{@top-left{}}')
+        return sh.cssRules[0].cssRules[0].style, [], sh
+    if owner == 'parsed-initial':
+        sh = cssutils.parseString('a{' + INITIAL + '}')
+        return sh.cssRules[0].style, [list(x) for x in INITIAL_ENTRIES], sh
+    if owner == 'parseStyle':
+        return cssutils.parseStyle(INITIAL), [list(x) for x in INITIAL_ENTRIES], None
+    if owner == 'rule-object':
+        r = css.CSSStyleRule(selectorText='a')
+        return r.style, [], r
     st = css.CSSStyleDeclaration()
+    if owner == 'validate-off':
+        st.validating = False
+    return st, [], None
+
+
+def run_history(ctx, cssutils, rng, canon, nops=None, ops_in=None, owner=None):
+    css = cssutils.css
+    if owner is None:
+        owner = rng.choice(OWNERS)
+    raising = owner != 'log-mode'
+    core.canonical_state(cssutils, raising=raising)
+    st, initial, keep = make_block(cssutils, owner)
+    ctx.count('owner.' + owner)
     m = Model()
+    m.e = initial
     ops = []
-    case = {'kind': 'history', 'ops': ops}
+    case = {'kind': 'history', 'ops': ops, 'owner': owner}
     known_dom = [n for n in ('color', 'top', 'left', 'margin-top')]
     n = nops or rng.randint(3, 14)
     script = ops_in
@@ -174,7 +217,7 @@ def run_history(ctx, cssutils, rng, canon, nops=None, ops_in=None):
         cval = canon[val] if val in canon else val
         ctx.count('op.' + k)
         try:
-            core.canonical_state(cssutils)
+            core.canonical_state(cssutils, raising=raising)
             if k == 'set':
                 st.setProperty(name, val, pr)
                 m.set(name, cval, prio)
@@ -242,8 +285,10 @@ def run_history(ctx, cssutils, rng, canon, nops=None, ops_in=None):
                 op[2] = bad
                 try:
                     st.setProperty(name, bad, pr)
-                    ctx.violation('model.bad-value-accepted', dict(case, failed_at=step), {'value': bad, 'cssText': st.cssText})
-                    return
+                    if raising:
+                        ctx.violation('model.bad-value-accepted', dict(case, failed_at=step), {'value': bad, 'cssText': st.cssText})
+                        return
+                    ctx.count('rejections.silent')  # log mode: refused silently, the observers below see an unchanged block
                 except xml.dom.DOMException:
                     ctx.count('rejections')
             elif k == 'set-empty':
@@ -252,7 +297,8 @@ def run_history(ctx, cssutils, rng, canon, nops=None, ops_in=None):
         except Exception as e:
             ctx.violation('model.exception', dict(case, failed_at=step), {'tb': core.short_tb(e)}, features=feats, site=core.raise_site(e))
             return
-        ctx.seen(['S', m.shape(), k])
+        ctx.seen(['S', m.shape(), k, owner])
+        core.canonical_state(cssutils)
         if not observe(ctx, st, m, case, step, canon, feats):
             return
     ctx.count('histories')
@@ -403,7 +449,7 @@ def replay(ctx, case):
     import random
 
     if case.get('kind') == 'history':
-        run_history(ctx, cssutils, random.Random(0), canon, ops_in=[list(o) for o in case['ops']])
+        run_history(ctx, cssutils, random.Random(0), canon, ops_in=[list(o) for o in case['ops']], owner=case.get('owner', 'standalone'))
     elif case.get('kind') == 'variables':
         run_variables(ctx, cssutils, random.Random(0), canon, ops_in=[list(o) for o in case['ops']])
     elif case.get('kind') == 'domname':
